@@ -23,6 +23,7 @@ EXPLANATION = (
     " Added after seed round 6: U5 memo-key rule over the export path (to_prolog call closure): a memoised value is keyed by every argument the callee reads (positive example matched on every run); U6 enum_clauses writes a disjunct unless extract_ads consumed it and it has no name of its own."
     " Added after seed round 7: U7 to_prolog re-defines a deterministic query / evidence atom with its own truth value and writes the observed polarity of evidence (scenario tables; helper methods evaluated under the same scenario)."
     " Added after seed round 8: U8 per-node tables on the export path are indexed with abs(child); the header and clause lines of to_dimacs are decided on the text they denote."
+    " Added after seed round 9: U9 _is_valid_name folded for sample functors: only `choice` and `body_<n>` are internal names."
 )
 TECHNIQUE = "static analysis: decision table of the DIMACS writer loop (every internal clause emitted once), writer/counter pairing, wiring rules of the ground task"
 LEVEL_TEXT = EXPLANATION
@@ -558,6 +559,38 @@ def rule_u8(repo, col):
     col.floor("U8.table_subscripts", n, 3)
 
 
+def rule_u9(repo, col):
+    """_is_valid_name hides exactly the names the grounder invents (functor `choice`, functors `body_<n>`); every other functor - `choices`, `choice_route`, `bodyguard` - is a user
+    predicate whose clauses must be exported under its own name.  The test is folded for sample functors."""
+    f = repo.func("problog.formula", "LogicFormula._is_valid_name")
+    m = f.module
+    if len(f.params) != 2:
+        raise AnalysisError("_is_valid_name: one parameter expected")
+    nm = f.params[1]
+    paths = dtable.extract(f.node, opaque_loops=True)
+    n = 0
+    for functor, want in (("choice", False), ("body_1", False), ("body_", False), ("q", True), ("choices", True), ("choice_route", True), ("bodyguard", True), ("mybody_1", True)):
+        mapping = [("%s.functor" % nm, functor), ("%s is not None" % nm, True), ("%s is None" % nm, False), (nm, True)]
+        ps = dtable.compatible(paths, mapping)
+        vals = set()
+        for p_ in ps:
+            if any(dtable.eval_atom(s_, mapping, None) is None for s_, _, _ in p_.conds) or p_.end != "return" or p_.value is None:
+                raise AnalysisError("_is_valid_name: not decidable for functor %r" % functor)
+            v = dtable.eval_atom(p_.value, mapping, None)
+            if v is None:
+                raise AnalysisError("_is_valid_name: result %s not decidable for functor %r" % (p_.value[:60], functor))
+            vals.add(v)
+        if len(vals) != 1:
+            raise AnalysisError("_is_valid_name: no single answer for functor %r" % functor)
+        got = vals.pop()
+        n += 1
+        col.decide("U9", m, f.node, got == want, "a node named %s/n %s" % (functor, "keeps its name in the exported program" if want else "is an internal node"),
+                   "_is_valid_name(%s(...)) is %s: %s" % (functor, got, "the user predicate loses its name, get_name / get_body then write the name of its first child instead and the exported "
+                   "program computes other probabilities (choice_route :- a. choice_route :- b. q :- choice_route, c. is exported as q :- a, c.)" if want else
+                   "an invented choice / body node is written as if the program defined it"), construct="_is_valid_name: functor %s" % functor, function="LogicFormula._is_valid_name")
+    col.floor("U9.functors", n, 8)
+
+
 def run(repo, col):
     col.rule("U1", "DIMACS writer: every internal clause emitted exactly once, no weight column, header counts")
     col.rule("U2", "to_dimacs text format")
@@ -575,3 +608,5 @@ def run(repo, col):
     rule_u7(repo, col)
     col.rule("U8", "per-node tables are indexed with abs(child)")
     rule_u8(repo, col)
+    col.rule("U9", "_is_valid_name hides only the invented functors")
+    rule_u9(repo, col)
